@@ -1,8 +1,946 @@
 /-
-The computeCrossings sweep of `Model.Planarise`: invariants of one x-part and of the whole sweep.
+The computeCrossings sweep of `Model.Planarise`: tracking invariant, one event role by role, one x-part,
+the whole sweep.
 -/
 import AdaptaVerif.Lemmas.PlanariseSort
 namespace AdaptaVerif.Lemmas.Planarise
-open AdaptaVerif.Model.Planarise AdaptaVerif.Lemmas.SWO
+open AdaptaVerif.Model.Planarise
+
+/-! ### hypotheses on the segment list handed to `computeCrossings` -/
+
+def SegH (s : Seg) : Prop :=
+  s.ori = .H ∧ s.on.p.y = s.cc ∧ s.cn.p.y = s.cc ∧ s.on.p.x = s.lo ∧ s.cn.p.x = s.hi ∧ s.lo < s.hi
+def SegV (s : Seg) : Prop :=
+  s.ori = .V ∧ s.on.p.x = s.cc ∧ s.cn.p.x = s.cc ∧ s.on.p.y = s.lo ∧ s.cn.p.y = s.hi ∧ s.lo < s.hi
+
+/-- axis-parallel segments of positive length, stored as the `EdgeSegment` constructor stores them; any two
+x-coordinates (y-coordinates) of segment ends equal or more than 1 apart; segments on the same line do not overlap -/
+structure Good (S : List Seg) : Prop where
+  shape : ∀ s ∈ S, SegH s ∨ SegV s
+  sepX : ∀ s ∈ S, ∀ t ∈ S, ∀ a ∈ [s.on.p.x, s.cn.p.x], ∀ b ∈ [t.on.p.x, t.cn.p.x], Apart a b
+  sepY : ∀ s ∈ S, ∀ t ∈ S, ∀ a ∈ [s.on.p.y, s.cn.p.y], ∀ b ∈ [t.on.p.y, t.cn.p.y], Apart a b
+  noOverlap : S.Pairwise (fun s t => s.ori = t.ori → s.cc = t.cc → s.hi ≤ t.lo ∨ t.hi ≤ s.lo)
+
+theorem mkEvents_length (S : List Seg) : ∀ b, (mkEvents b S).length = 2 * S.length := by
+  induction S with
+  | nil => intro b; simp [mkEvents]
+  | cons s r ih => intro b; simp [mkEvents, ih]; omega
+
+theorem mkEvents_get (S : List Seg) : ∀ (b j : Nat) (s : Seg), S[j]? = some s →
+    (mkEvents b S)[2 * j]? = some (mkEv (b + j) s s.on .opn (2 * (b + j) + 1)) ∧
+    (mkEvents b S)[2 * j + 1]? = some (mkEv (b + j) s s.cn .close (2 * (b + j))) := by
+  induction S with
+  | nil => intro b j s h; simp at h
+  | cons s0 r ih =>
+    intro b j s h
+    cases j with
+    | zero =>
+      simp at h; subst h
+      simp [mkEvents]
+    | succ j =>
+      simp at h
+      have := ih (b + 1) j s h
+      have e1 : 2 * (j + 1) = (2 * j + 1) + 1 := by omega
+      have e2 : b + 1 + j = b + (j + 1) := by omega
+      rw [e2] at this
+      simp only [mkEvents]
+      refine ⟨?_, ?_⟩
+      · rw [e1, List.getElem?_cons_succ, List.getElem?_cons_succ]; exact this.1
+      · rw [e1, List.getElem?_cons_succ, List.getElem?_cons_succ]; exact this.2
+
+/-! ### the tracking invariant of the sweep -/
+
+def oriAt (segs : List Seg) (a : Nat) : Option Ori := (segs[a]?).map (·.ori)
+
+/-- `P e`: event `e` has been processed in its own role (OPEN / CLOSE) -/
+structure Inv (S : List Seg) (P : Nat → Prop) (st : SwState) : Prop where
+  len : st.evs.length = 2 * S.length
+  ev : ∀ i s, S[i]? = some s → ∃ eo ec, st.evs[2 * i]? = some eo ∧ st.evs[2 * i + 1]? = some ec ∧
+        eo.cc = s.cc ∧ eo.comp = 2 * i + 1 ∧ ec.comp = 2 * i ∧ ec.ty = .close ∧ ec.endpt = s.cn ∧
+        oriAt st.segs eo.seg = some s.ori ∧ oriAt st.segs ec.seg = some s.ori ∧
+        (s.ori = .H → eo.endpt.p.y = s.cc ∧ (P (2 * i) → eo.ty = .sustain) ∧ (¬ P (2 * i) → eo.ty = .opn)) ∧
+        (s.ori = .V → eo.ty = .opn ∧ (¬ P (2 * i) → eo.endpt.p.y = s.lo))
+  oh : ∀ e, e ∈ st.openH ↔ ∃ i s, S[i]? = some s ∧ e = 2 * i ∧ s.ori = .H ∧ P (2 * i) ∧ ¬ P (2 * i + 1)
+  ohs : st.openH.Pairwise (· < ·)
+
+theorem oriAt_some {segs : List Seg} {a : Nat} {o : Ori} (h : oriAt segs a = some o) :
+    ∃ s, segs[a]? = some s ∧ s.ori = o := by
+  unfold oriAt at h
+  cases hs : segs[a]? with
+  | none => simp [hs] at h
+  | some s => simp [hs] at h; exact ⟨s, rfl, h⟩
+
+theorem mem_insertAsc (i : Nat) (l : List Nat) (x : Nat) : x ∈ insertAsc i l ↔ x = i ∨ x ∈ l := by
+  induction l with
+  | nil => simp [insertAsc]
+  | cons j r ih =>
+    simp only [insertAsc]
+    split
+    · simp
+    · split
+      · rename_i h; subst h; simp
+      · simp [ih]; grind
+
+theorem insertAsc_sorted (i : Nat) (l : List Nat) (h : l.Pairwise (· < ·)) :
+    (insertAsc i l).Pairwise (· < ·) := by
+  induction l with
+  | nil => simp [insertAsc]
+  | cons j r ih =>
+    rw [List.pairwise_cons] at h
+    simp only [insertAsc]
+    split
+    · rename_i hij
+      rw [List.pairwise_cons]
+      refine ⟨?_, List.pairwise_cons.2 h⟩
+      intro x hx
+      rcases List.mem_cons.1 hx with rfl | hx
+      · exact hij
+      · exact Nat.lt_trans hij (h.1 x hx)
+    · split
+      · exact List.pairwise_cons.2 h
+      · rename_i h1 h2
+        rw [List.pairwise_cons]
+        refine ⟨?_, ih h.2⟩
+        intro x hx
+        rcases (mem_insertAsc i r x).1 hx with rfl | hx
+        · omega
+        · exact h.1 x hx
+
+theorem mem_erase_sorted (l : List Nat) (h : l.Pairwise (· < ·)) (a x : Nat) :
+    x ∈ l.erase a ↔ x ∈ l ∧ x ≠ a := by
+  have hnd : l.Nodup := h.imp (fun hab => Nat.ne_of_lt hab)
+  exact hnd.mem_erase_iff.trans (by constructor <;> (intro ⟨a, b⟩; exact ⟨b, a⟩))
+
+/-! ### one event, role by role -/
+
+variable {S : List Seg} {P : Nat → Prop} {st : SwState}
+
+theorem pe_close (hI : Inv S P st) {i : Nat} {s : Seg} (hs : S[i]? = some s) :
+    processEvent st (2 * i + 1) =
+      if s.ori = .H then { st with openH := st.openH.erase (2 * i) } else { st with openV := none } := by
+  obtain ⟨eo, ec, _, h1, _, _, h4, h5, _, _, h8, _⟩ := hI.ev i s hs
+  obtain ⟨sc, hsc, hori⟩ := oriAt_some h8
+  unfold processEvent
+  simp only [h1, hsc, h5, h4, hori]
+
+/-- the event part of the invariant only looks at `evs`, `segs` and `P` on OPEN events -/
+theorem Inv.transfer {Q : Nat → Prop} {st' : SwState} (hI : Inv S P st)
+    (hevs : st'.evs = st.evs) (hsegs : st'.segs = st.segs) (hPQ : ∀ j, Q (2 * j) ↔ P (2 * j))
+    (hoh : ∀ e, e ∈ st'.openH ↔ ∃ i s, S[i]? = some s ∧ e = 2 * i ∧ s.ori = .H ∧ Q (2 * i) ∧ ¬ Q (2 * i + 1))
+    (hohs : st'.openH.Pairwise (· < ·)) : Inv S Q st' := by
+  refine ⟨by rw [hevs]; exact hI.len, ?_, hoh, hohs⟩
+  intro i s hs
+  obtain ⟨eo, ec, h0, h1, h2, h3, h4, h5, h6, h7, h8, h9, h10⟩ := hI.ev i s hs
+  refine ⟨eo, ec, by rw [hevs]; exact h0, by rw [hevs]; exact h1, h2, h3, h4, h5, h6,
+    by rw [hsegs]; exact h7, by rw [hsegs]; exact h8, ?_, ?_⟩
+  · intro hH; have := h9 hH
+    exact ⟨this.1, fun q => this.2.1 ((hPQ i).1 q), fun q => this.2.2 (fun p => q ((hPQ i).2 p))⟩
+  · intro hV; have := h10 hV
+    exact ⟨this.1, fun q => this.2 (fun p => q ((hPQ i).2 p))⟩
+
+theorem inv_closeH (hI : Inv S P st) {i : Nat} {s : Seg} (_hs : S[i]? = some s) (_hH : s.ori = .H) :
+    Inv S (fun e => P e ∨ e = 2 * i + 1) { st with openH := st.openH.erase (2 * i) } := by
+  refine hI.transfer rfl rfl (fun j => ⟨fun h => h.elim id (fun h => by omega), Or.inl⟩) ?_
+    (List.Pairwise.sublist List.erase_sublist hI.ohs)
+  intro e
+  simp only
+  rw [mem_erase_sorted _ hI.ohs, hI.oh]
+  constructor
+  · rintro ⟨⟨j, t, ht, rfl, htH, hp, hnp⟩, hne⟩
+    refine ⟨j, t, ht, rfl, htH, Or.inl hp, ?_⟩
+    rintro (h | h)
+    · exact hnp h
+    · omega
+  · rintro ⟨j, t, ht, rfl, htH, hp, hnp⟩
+    refine ⟨⟨j, t, ht, rfl, htH, hp.elim id (fun h => by omega), fun h => hnp (Or.inl h)⟩, ?_⟩
+    intro h; exact hnp (Or.inr (by omega))
+
+theorem inv_closeV (hI : Inv S P st) {k : Nat} {s : Seg} (hs : S[k]? = some s) (hV : s.ori = .V) :
+    Inv S (fun e => P e ∨ e = 2 * k + 1) { st with openV := none } := by
+  refine hI.transfer rfl rfl (fun j => ⟨fun h => h.elim id (fun h => by omega), Or.inl⟩) ?_ hI.ohs
+  intro e
+  simp only
+  rw [hI.oh]
+  constructor
+  · rintro ⟨j, t, ht, rfl, htH, hp, hnp⟩
+    refine ⟨j, t, ht, rfl, htH, Or.inl hp, ?_⟩
+    rintro (h | h)
+    · exact hnp h
+    · have : j = k := by omega
+      subst this; rw [hs] at ht; cases ht; rw [hV] at htH; cases htH
+  · rintro ⟨j, t, ht, rfl, htH, hp, hnp⟩
+    exact ⟨j, t, ht, rfl, htH, hp.elim id (fun h => by omega), fun h => hnp (Or.inl h)⟩
+
+theorem pe_openV (hI : Inv S P st) {k : Nat} {s : Seg} (hs : S[k]? = some s) (hV : s.ori = .V) :
+    processEvent st (2 * k) = { st with openV := some (2 * k) } := by
+  obtain ⟨eo, ec, h0, _, _, _, _, _, _, h7, _, _, h10⟩ := hI.ev k s hs
+  obtain ⟨so, hso, hori⟩ := oriAt_some h7
+  unfold processEvent
+  simp only [h0, hso, (h10 hV).1, hori, hV]
+  simp
+
+theorem inv_openV (hI : Inv S P st) {k : Nat} {s : Seg} (hs : S[k]? = some s) (hV : s.ori = .V) :
+    Inv S (fun e => P e ∨ e = 2 * k) { st with openV := some (2 * k) } := by
+  refine ⟨hI.len, ?_, ?_, hI.ohs⟩
+  · intro i t ht
+    obtain ⟨eo, ec, h0, h1, h2, h3, h4, h5, h6, h7, h8, h9, h10⟩ := hI.ev i t ht
+    refine ⟨eo, ec, h0, h1, h2, h3, h4, h5, h6, h7, h8, ?_, ?_⟩
+    · intro hH
+      have hik : i ≠ k := by rintro rfl; rw [hs] at ht; cases ht; rw [hV] at hH; cases hH
+      have := h9 hH
+      exact ⟨this.1, fun q => this.2.1 (q.elim id (fun h => by omega)), fun q => this.2.2 (fun p => q (Or.inl p))⟩
+    · intro hV'; have := h10 hV'
+      exact ⟨this.1, fun q => this.2 (fun p => q (Or.inl p))⟩
+  · intro e
+    simp only
+    rw [hI.oh]
+    constructor
+    · rintro ⟨j, t, ht, rfl, htH, hp, hnp⟩
+      exact ⟨j, t, ht, rfl, htH, Or.inl hp, fun h => h.elim hnp (fun h => by omega)⟩
+    · rintro ⟨j, t, ht, rfl, htH, hp, hnp⟩
+      have hjk : j ≠ k := by rintro rfl; rw [hs] at ht; cases ht; rw [hV] at htH; cases htH
+      exact ⟨j, t, ht, rfl, htH, hp.elim id (fun h => by omega), fun h => hnp (Or.inl h)⟩
+
+theorem pe_openH (hI : Inv S P st) {i : Nat} {s : Seg} (hs : S[i]? = some s) (hH : s.ori = .H)
+    (hnP : ¬ P (2 * i)) :
+    ∃ eo, st.evs[2 * i]? = some eo ∧ processEvent st (2 * i) =
+      { st with evs := st.evs.set (2 * i) { eo with ty := .sustain }, openH := insertAsc (2 * i) st.openH } := by
+  obtain ⟨eo, ec, h0, _, _, _, _, _, _, h7, _, h9, _⟩ := hI.ev i s hs
+  obtain ⟨so, hso, hori⟩ := oriAt_some h7
+  refine ⟨eo, h0, ?_⟩
+  unfold processEvent
+  simp only [h0, hso, (h9 hH).2.2 hnP, hori, hH]
+  simp
+
+theorem inv_openH (hI : Inv S P st) {i : Nat} {s : Seg} (hs : S[i]? = some s) (hH : s.ori = .H)
+    (hnP : ¬ P (2 * i)) (hnP1 : ¬ P (2 * i + 1)) {eo : Ev} (heo : st.evs[2 * i]? = some eo) :
+    Inv S (fun e => P e ∨ e = 2 * i)
+      { st with evs := st.evs.set (2 * i) { eo with ty := .sustain }, openH := insertAsc (2 * i) st.openH } := by
+  refine ⟨by simp [hI.len], ?_, ?_, insertAsc_sorted _ _ hI.ohs⟩
+  · intro j t ht
+    obtain ⟨eo', ec, h0, h1, h2, h3, h4, h5, h6, h7, h8, h9, h10⟩ := hI.ev j t ht
+    by_cases hji : j = i
+    · subst hji
+      rw [hs] at ht; cases ht
+      rw [heo] at h0; cases h0
+      have hlt : 2 * j < st.evs.length := by
+        rw [hI.len]; obtain ⟨hj, _⟩ := List.getElem?_eq_some_iff.1 hs; omega
+      refine ⟨{ eo with ty := .sustain }, ec, ?_, ?_, h2, h3, h4, h5, h6, h7, h8, ?_, ?_⟩
+      · simp [hlt]
+      · simp only [List.getElem?_set]; rw [if_neg (by omega)]; exact h1
+      · intro _; exact ⟨(h9 hH).1, fun _ => rfl, fun q => absurd (Or.inr rfl) q⟩
+      · intro hV; rw [hH] at hV; cases hV
+    · refine ⟨eo', ec, ?_, ?_, h2, h3, h4, h5, h6, h7, h8, ?_, ?_⟩
+      · simp only [List.getElem?_set]; rw [if_neg (by omega)]; exact h0
+      · simp only [List.getElem?_set]; rw [if_neg (by omega)]; exact h1
+      · intro hH'; have := h9 hH'
+        exact ⟨this.1, fun q => this.2.1 (q.elim id (fun h => by omega)), fun q => this.2.2 (fun p => q (Or.inl p))⟩
+      · intro hV'; have := h10 hV'
+        exact ⟨this.1, fun q => this.2 (fun p => q (Or.inl p))⟩
+  · intro e
+    simp only
+    rw [mem_insertAsc, hI.oh]
+    constructor
+    · rintro (rfl | ⟨j, t, ht, rfl, htH, hp, hnp⟩)
+      · exact ⟨i, s, hs, rfl, hH, Or.inr rfl, fun h => h.elim hnP1 (fun h => by omega)⟩
+      · exact ⟨j, t, ht, rfl, htH, Or.inl hp, fun h => h.elim hnp (fun h => by omega)⟩
+    · rintro ⟨j, t, ht, rfl, htH, hp, hnp⟩
+      by_cases hji : j = i
+      · left; rw [hji]
+      · right
+        exact ⟨j, t, ht, rfl, htH, hp.elim id (fun h => by omega), fun h => hnp (Or.inl h)⟩
+
+/-! ### the SUSTAIN arm -/
+
+theorem absR_nonneg (r : Rat) : 0 ≤ absR r := by unfold absR; split <;> grind
+theorem absR_pos {r : Rat} (h : r ≠ 0) : 0 < absR r := by unfold absR; split <;> grind
+
+theorem mkSeg_ori_H {n1 n2 : Node} (h : n1.p.y = n2.p.y) : (mkSeg n1 n2).ori = .H := by
+  unfold mkSeg
+  have h0 : n2.p.y - n1.p.y = 0 := by grind
+  simp only [h0]
+  have : absR 0 ≤ absR (n2.p.x - n1.p.x) := by
+    have := absR_nonneg (n2.p.x - n1.p.x); unfold absR at *; grind
+  simp only [this, if_true]
+  split <;> rfl
+
+theorem mkSeg_ori_V {n1 n2 : Node} (hx : n1.p.x = n2.p.x) (hy : n1.p.y ≠ n2.p.y) : (mkSeg n1 n2).ori = .V := by
+  unfold mkSeg
+  have h0 : n2.p.x - n1.p.x = 0 := by grind
+  simp only [h0]
+  have : ¬ absR (n2.p.y - n1.p.y) ≤ absR 0 := by
+    have := absR_pos (r := n2.p.y - n1.p.y) (by grind); unfold absR at *; grind
+  simp only [this, if_false]
+  split <;> rfl
+
+theorem oriAt_set_closing {segs : List Seg} {a : Nat} {s : Seg} (h : segs[a]? = some s) (cr : Node) (b : Nat) :
+    oriAt (segs.set a (s.setNewClosing cr)) b = oriAt segs b := by
+  unfold oriAt
+  rw [List.getElem?_set]
+  split
+  · rename_i hab; subst hab
+    obtain ⟨hlt, hget⟩ := List.getElem?_eq_some_iff.1 h
+    simp [hlt, Seg.setNewClosing, hget]
+  · rfl
+
+theorem oriAt_append {segs : List Seg} {b : Nat} {o : Ori} (l : List Seg) (h : oriAt segs b = some o) :
+    oriAt (segs ++ l) b = some o := by
+  obtain ⟨s, hs, ho⟩ := oriAt_some h
+  unfold oriAt
+  rw [List.getElem?_append_left (List.getElem?_eq_some_iff.1 hs).1, hs]; simp [ho]
+
+theorem oriAt_append_new (segs : List Seg) (x : Seg) : oriAt (segs ++ [x]) segs.length = some x.ori := by
+  unfold oriAt; simp
+
+theorem crossAt_eq (st : SwState) (i j : Nat) (e ov : Ev) (so sv : Seg) (ce cv : Ev)
+    (h1 : st.segs[e.seg]? = some so)
+    (h2 : (st.segs.set e.seg (so.setNewClosing ⟨st.nextId, ⟨ov.cc, e.cc⟩⟩))[ov.seg]? = some sv)
+    (h3 : st.evs[e.comp]? = some ce)
+    (h4 : (st.evs.set e.comp { ce with seg := st.segs.length })[ov.comp]? = some cv) :
+    crossAt st i j e ov =
+      { st with
+        segs := ((st.segs.set e.seg (so.setNewClosing ⟨st.nextId, ⟨ov.cc, e.cc⟩⟩)).set ov.seg
+                  (sv.setNewClosing ⟨st.nextId, ⟨ov.cc, e.cc⟩⟩)) ++ [mkSeg ⟨st.nextId, ⟨ov.cc, e.cc⟩⟩ ce.endpt]
+                  ++ [mkSeg ⟨st.nextId, ⟨ov.cc, e.cc⟩⟩ cv.endpt],
+        evs := (((st.evs.set e.comp { ce with seg := st.segs.length }).set ov.comp
+                  { cv with seg := st.segs.length + 1 }).set i
+                  { e with seg := st.segs.length, endpt := ⟨st.nextId, ⟨ov.cc, e.cc⟩⟩, vc := ov.cc }).set j
+                  { ov with seg := st.segs.length + 1, endpt := ⟨st.nextId, ⟨ov.cc, e.cc⟩⟩, vc := e.cc },
+        cross := ⟨st.nextId, ⟨ov.cc, e.cc⟩⟩ :: st.cross, nextId := st.nextId + 1 } := by
+  unfold crossAt
+  simp only [h1, h2, h3]
+  simp only [List.length_set, List.length_append, List.length_cons, List.length_nil]
+  simp only [h4]
+
+/-- what the invariant says about the event stored at index `x` -/
+def EvOK (S : List Seg) (P : Nat → Prop) (segs : List Seg) (x : Nat) (e : Ev) : Prop :=
+  ∀ i s, S[i]? = some s →
+    (x = 2 * i → e.cc = s.cc ∧ e.comp = 2 * i + 1 ∧ oriAt segs e.seg = some s.ori ∧
+        (s.ori = .H → e.endpt.p.y = s.cc ∧ (P (2 * i) → e.ty = .sustain) ∧ (¬ P (2 * i) → e.ty = .opn)) ∧
+        (s.ori = .V → e.ty = .opn ∧ (¬ P (2 * i) → e.endpt.p.y = s.lo))) ∧
+    (x = 2 * i + 1 → e.comp = 2 * i ∧ e.ty = .close ∧ e.endpt = s.cn ∧ oriAt segs e.seg = some s.ori)
+
+theorem Inv.evOK (hI : Inv S P st) : ∀ x e, st.evs[x]? = some e → EvOK S P st.segs x e := by
+  intro x e hx i s hs
+  obtain ⟨eo, ec, h0, h1, h2, h3, h4, h5, h6, h7, h8, h9, h10⟩ := hI.ev i s hs
+  constructor
+  · rintro rfl
+    rw [h0] at hx; cases hx
+    exact ⟨h2, h3, h7, h9, h10⟩
+  · rintro rfl
+    rw [h1] at hx; cases hx
+    exact ⟨h4, h5, h6, h8⟩
+
+theorem Inv.mk' (len : st.evs.length = 2 * S.length)
+    (h : ∀ x e, st.evs[x]? = some e → EvOK S P st.segs x e)
+    (oh : ∀ e, e ∈ st.openH ↔ ∃ i s, S[i]? = some s ∧ e = 2 * i ∧ s.ori = .H ∧ P (2 * i) ∧ ¬ P (2 * i + 1))
+    (ohs : st.openH.Pairwise (· < ·)) : Inv S P st := by
+  refine ⟨len, ?_, oh, ohs⟩
+  intro i s hs
+  obtain ⟨hi, _⟩ := List.getElem?_eq_some_iff.1 hs
+  have l0 : 2 * i < st.evs.length := by omega
+  have l1 : 2 * i + 1 < st.evs.length := by omega
+  have g0 : st.evs[2 * i]? = some st.evs[2 * i] := List.getElem?_eq_getElem l0
+  have g1 : st.evs[2 * i + 1]? = some st.evs[2 * i + 1] := List.getElem?_eq_getElem l1
+  obtain ⟨a1, a2, a3, a4, a5⟩ := (h _ _ g0 i s hs).1 rfl
+  obtain ⟨b1, b2, b3, b4⟩ := (h _ _ g1 i s hs).2 rfl
+  exact ⟨_, _, g0, g1, a1, a2, b1, b2, b3, a3, b4, a4, a5⟩
+
+theorem EvOK.segs_mono {segs segs' : List Seg} {x : Nat} {e : Ev}
+    (hm : ∀ a o, oriAt segs a = some o → oriAt segs' a = some o) (h : EvOK S P segs x e) :
+    EvOK S P segs' x e := by
+  intro i s hs
+  obtain ⟨h1, h2⟩ := h i s hs
+  exact ⟨fun hx => let ⟨a, b, c, d⟩ := h1 hx; ⟨a, b, hm _ _ c, d⟩,
+         fun hx => let ⟨a, b, c, d⟩ := h2 hx; ⟨a, b, c, hm _ _ d⟩⟩
+
+theorem evOK_set {evs : List Ev} {segs : List Seg} {y : Nat} {e' : Ev}
+    (h : ∀ x e, evs[x]? = some e → EvOK S P segs x e) (he' : EvOK S P segs y e') :
+    ∀ x e, (evs.set y e')[x]? = some e → EvOK S P segs x e := by
+  intro x e hx
+  rw [List.getElem?_set] at hx
+  split at hx
+  · rename_i hyx; subst hyx
+    split at hx
+    · cases hx; exact he'
+    · cases hx
+  · exact h x e hx
+
+theorem inv_cross (hG : Good S) (hI : Inv S P st) {i k : Nat} {si sk : Seg}
+    (hsi : S[i]? = some si) (hHi : si.ori = .H) (hsk : S[k]? = some sk) (hVk : sk.ori = .V)
+    (hPk : P (2 * k)) {e ov : Ev} (he : st.evs[2 * i]? = some e) (hov : st.evs[2 * k]? = some ov)
+    (hne : si.cc ≠ sk.hi) :
+    Inv S P (crossAt st (2 * i) (2 * k) e ov) ∧
+    (crossAt st (2 * i) (2 * k) e ov).cross = ⟨st.nextId, ⟨sk.cc, si.cc⟩⟩ :: st.cross ∧
+    (crossAt st (2 * i) (2 * k) e ov).openV = st.openV ∧
+    (crossAt st (2 * i) (2 * k) e ov).openH = st.openH := by
+  have hik : i ≠ k := by rintro rfl; rw [hsi] at hsk; cases hsk; rw [hHi] at hVk; cases hVk
+  obtain ⟨eo, ec, h0, h1, h2, h3, h4, h5, h6, h7, h8, h9, h10⟩ := hI.ev i si hsi
+  rw [he] at h0; cases h0
+  obtain ⟨eo', ec', k0, k1, k2, k3, k4, k5, k6, k7, k8, k9, k10⟩ := hI.ev k sk hsk
+  rw [hov] at k0; cases k0
+  obtain ⟨so, hso, hsoo⟩ := oriAt_some h7
+  obtain ⟨sv, hsv, hsvo⟩ := oriAt_some k7
+  have hseg_ne : e.seg ≠ ov.seg := by
+    intro h; rw [h] at hso; rw [hso] at hsv; cases hsv; rw [hsoo] at hsvo; rw [hHi, hVk] at hsvo; cases hsvo
+  have hsiM : si ∈ S := List.mem_of_getElem? hsi
+  have hskM : sk ∈ S := List.mem_of_getElem? hsk
+  have shi : SegH si := by
+    rcases hG.shape si hsiM with h | h
+    · exact h
+    · rw [h.1] at hHi; cases hHi
+  have shk : SegV sk := by
+    rcases hG.shape sk hskM with h | h
+    · rw [h.1] at hVk; cases hVk
+    · exact h
+  have h2' : (st.segs.set e.seg (so.setNewClosing ⟨st.nextId, ⟨ov.cc, e.cc⟩⟩))[ov.seg]? = some sv := by
+    rw [List.getElem?_set, if_neg hseg_ne]; exact hsv
+  have h3' : st.evs[e.comp]? = some ec := by rw [h3]; exact h1
+  have h4' : (st.evs.set e.comp { ec with seg := st.segs.length })[ov.comp]? = some ec' := by
+    rw [List.getElem?_set, if_neg (by rw [h3, k3]; omega), k3]; exact k1
+  rw [crossAt_eq st (2 * i) (2 * k) e ov so sv ec ec' hso h2' h3' h4']
+  refine ⟨?_, by simp [h2, k2], rfl, rfl⟩
+  -- orientation of the two continuation segments
+  have hnewH : (mkSeg ⟨st.nextId, ⟨ov.cc, e.cc⟩⟩ ec.endpt).ori = .H := by
+    apply mkSeg_ori_H; simp only; rw [h6, shi.2.2.1, h2]
+  have hnewV : (mkSeg ⟨st.nextId, ⟨ov.cc, e.cc⟩⟩ ec'.endpt).ori = .V := by
+    apply mkSeg_ori_V
+    · simp only; rw [k6, shk.2.2.1, k2]
+    · simp only; rw [k6, shk.2.2.2.2.1, h2]; exact hne
+  -- every old orientation lookup survives
+  have hmono : ∀ a o, oriAt st.segs a = some o →
+      oriAt (((st.segs.set e.seg (so.setNewClosing ⟨st.nextId, ⟨ov.cc, e.cc⟩⟩)).set ov.seg
+        (sv.setNewClosing ⟨st.nextId, ⟨ov.cc, e.cc⟩⟩)) ++ [mkSeg ⟨st.nextId, ⟨ov.cc, e.cc⟩⟩ ec.endpt]
+        ++ [mkSeg ⟨st.nextId, ⟨ov.cc, e.cc⟩⟩ ec'.endpt]) a = some o := by
+    intro a o ha
+    apply oriAt_append; apply oriAt_append
+    rw [oriAt_set_closing h2', oriAt_set_closing hso]; exact ha
+  have hL1 : oriAt (((st.segs.set e.seg (so.setNewClosing ⟨st.nextId, ⟨ov.cc, e.cc⟩⟩)).set ov.seg
+        (sv.setNewClosing ⟨st.nextId, ⟨ov.cc, e.cc⟩⟩)) ++ [mkSeg ⟨st.nextId, ⟨ov.cc, e.cc⟩⟩ ec.endpt]
+        ++ [mkSeg ⟨st.nextId, ⟨ov.cc, e.cc⟩⟩ ec'.endpt]) st.segs.length = some .H := by
+    apply oriAt_append
+    have := oriAt_append_new ((st.segs.set e.seg (so.setNewClosing ⟨st.nextId, ⟨ov.cc, e.cc⟩⟩)).set ov.seg
+        (sv.setNewClosing ⟨st.nextId, ⟨ov.cc, e.cc⟩⟩)) (mkSeg ⟨st.nextId, ⟨ov.cc, e.cc⟩⟩ ec.endpt)
+    simp only [List.length_set] at this
+    rw [this, hnewH]
+  have hL2 : oriAt (((st.segs.set e.seg (so.setNewClosing ⟨st.nextId, ⟨ov.cc, e.cc⟩⟩)).set ov.seg
+        (sv.setNewClosing ⟨st.nextId, ⟨ov.cc, e.cc⟩⟩)) ++ [mkSeg ⟨st.nextId, ⟨ov.cc, e.cc⟩⟩ ec.endpt]
+        ++ [mkSeg ⟨st.nextId, ⟨ov.cc, e.cc⟩⟩ ec'.endpt]) (st.segs.length + 1) = some .V := by
+    have := oriAt_append_new (((st.segs.set e.seg (so.setNewClosing ⟨st.nextId, ⟨ov.cc, e.cc⟩⟩)).set ov.seg
+        (sv.setNewClosing ⟨st.nextId, ⟨ov.cc, e.cc⟩⟩)) ++ [mkSeg ⟨st.nextId, ⟨ov.cc, e.cc⟩⟩ ec.endpt])
+        (mkSeg ⟨st.nextId, ⟨ov.cc, e.cc⟩⟩ ec'.endpt)
+    simp only [List.length_set, List.length_append, List.length_cons, List.length_nil] at this
+    rw [this, hnewV]
+  have hOK := hI.evOK
+  apply Inv.mk'
+  · simp [hI.len]
+  · simp only
+    apply evOK_set (y := 2 * k); apply evOK_set (y := 2 * i)
+    apply evOK_set (y := ov.comp); apply evOK_set (y := e.comp)
+    · intro x e0 hx; exact (hOK x e0 hx).segs_mono hmono
+    · -- CLOSE event of the horizontal
+      intro j t ht
+      have := (hOK _ _ h3' j t ht)
+      refine ⟨fun hx => absurd hx (by rw [h3]; omega), fun hx => ?_⟩
+      obtain ⟨a, b, c, d⟩ := this.2 hx
+      have : j = i := by rw [h3] at hx; omega
+      subst this; rw [hsi] at ht; cases ht
+      exact ⟨a, b, c, by simp only; rw [hHi]; exact hL1⟩
+    · -- CLOSE event of the vertical
+      intro j t ht
+      have := (hOK _ _ (k3 ▸ k1) j t ht)
+      refine ⟨fun hx => absurd hx (by rw [k3]; omega), fun hx => ?_⟩
+      obtain ⟨a, b, c, d⟩ := this.2 hx
+      have : j = k := by rw [k3] at hx; omega
+      subst this; rw [hsk] at ht; cases ht
+      exact ⟨a, b, c, by simp only; rw [hVk]; exact hL2⟩
+    · -- SUSTAIN event of the horizontal
+      intro j t ht
+      refine ⟨fun hx => ?_, fun hx => absurd hx (by omega)⟩
+      have : j = i := by omega
+      subst this; rw [hsi] at ht; cases ht
+      refine ⟨h2, h3, by simp only; rw [hHi]; exact hL1, fun _ => ?_, fun hV => by rw [hHi] at hV; cases hV⟩
+      exact ⟨by simp only; exact h2, (h9 hHi).2.1, (h9 hHi).2.2⟩
+    · -- OPEN event of the vertical
+      intro j t ht
+      refine ⟨fun hx => ?_, fun hx => absurd hx (by omega)⟩
+      have : j = k := by omega
+      subst this; rw [hsk] at ht; cases ht
+      refine ⟨k2, k3, by simp only; rw [hVk]; exact hL2, fun hH => (by rw [hVk] at hH; cases hH), fun _ => ?_⟩
+      exact ⟨(k10 hVk).1, fun hn => absurd hPk hn⟩
+  · exact hI.oh
+  · exact hI.ohs
+
+theorem Inv.congr {Q : Nat → Prop} (hI : Inv S P st) (h : ∀ x, P x ↔ Q x) : Inv S Q st := by
+  refine hI.transfer rfl rfl (fun j => (h _).symm) ?_ hI.ohs
+  intro e; rw [hI.oh]
+  constructor
+  · rintro ⟨i, s, a, b, c, d, f⟩; exact ⟨i, s, a, b, c, (h _).1 d, fun q => f ((h _).2 q)⟩
+  · rintro ⟨i, s, a, b, c, d, f⟩; exact ⟨i, s, a, b, c, (h _).2 d, fun q => f ((h _).1 q)⟩
+
+theorem pe_sustain (hI : Inv S P st) {i : Nat} {s : Seg} (hs : S[i]? = some s) (hH : s.ori = .H)
+    (hP : P (2 * i)) :
+    ∃ e, st.evs[2 * i]? = some e ∧ processEvent st (2 * i) =
+      match st.openV with
+      | none => st
+      | some j => match st.evs[j]? with
+        | none => st
+        | some ov => crossAt st (2 * i) j e ov := by
+  obtain ⟨eo, ec, h0, _, _, _, _, _, _, h7, _, h9, _⟩ := hI.ev i s hs
+  obtain ⟨so, hso, _⟩ := oriAt_some h7
+  refine ⟨eo, h0, ?_⟩
+  unfold processEvent
+  simp only [h0, hso, (h9 hH).2.1 hP]
+  cases st.openV with
+  | none => rfl
+  | some j => simp only; cases st.evs[j]? <;> rfl
+
+/-! ### the comparator as a key -/
+
+/-- sort key of an active event: y, then CLOSE < SUSTAIN < OPEN -/
+def kk (y : Rat) : EvType → Rat
+  | .close => y
+  | .sustain => y + 1 / 4
+  | .opn => y + 1 / 2
+
+theorem compareActive_key (ya yb : Rat) (ta tb : EvType) (h : Apart ya yb) :
+    compareActive ya ta yb tb = true ↔ kk ya ta < kk yb tb := by
+  unfold Apart at h
+  by_cases h1 : yb - ya > 1 <;> by_cases h2 : ya - yb > 1 <;>
+  cases ta <;> cases tb <;> simp only [compareActive, tolY, kk, EvType.rank, h1, h2, if_true, if_false] <;>
+    simp <;> grind
+
+def akey (evs : List Ev) (e : Nat) : Rat :=
+  match evs[e]? with
+  | some ev => kk ev.endpt.p.y ev.ty
+  | none => 0
+
+theorem cmpEv_key (evs : List Ev) (a b : Nat) (ea eb : Ev) (ha : evs[a]? = some ea) (hb : evs[b]? = some eb)
+    (h : Apart ea.endpt.p.y eb.endpt.p.y) : cmpEv evs a b = true ↔ akey evs a < akey evs b := by
+  unfold cmpEv akey
+  simp only [ha, hb]
+  exact compareActive_key _ _ _ _ h
+
+/-! ### one x-part -/
+
+/-- `part` = the events whose end node has x = `X`; `P0` = the events left of `X` -/
+structure PartCtx (S : List Seg) (P0 : Nat → Prop) (X : Rat) (part : List Nat) : Prop where
+  hP0 : ∀ i s, S[i]? = some s → (P0 (2 * i) ↔ s.on.p.x < X) ∧ (P0 (2 * i + 1) ↔ s.cn.p.x < X)
+  hpart : ∀ i s, S[i]? = some s → (2 * i ∈ part ↔ s.on.p.x = X) ∧ (2 * i + 1 ∈ part ↔ s.cn.p.x = X)
+  hlt : ∀ e ∈ part, e < 2 * S.length
+
+theorem Good.segH (hG : Good S) {i : Nat} {s : Seg} (hs : S[i]? = some s) (h : s.ori = .H) : SegH s := by
+  rcases hG.shape s (List.mem_of_getElem? hs) with h' | h'
+  · exact h'
+  · rw [h'.1] at h; cases h
+
+theorem Good.segV (hG : Good S) {i : Nat} {s : Seg} (hs : S[i]? = some s) (h : s.ori = .V) : SegV s := by
+  rcases hG.shape s (List.mem_of_getElem? hs) with h' | h'
+  · rw [h'.1] at h; cases h
+  · exact h'
+
+theorem Good.noOverlap_get (hG : Good S) {a b : Nat} {s t : Seg} (hs : S[a]? = some s) (ht : S[b]? = some t)
+    (hab : a ≠ b) (ho : s.ori = t.ori) (hc : s.cc = t.cc) : s.hi ≤ t.lo ∨ t.hi ≤ s.lo := by
+  obtain ⟨ha, hsa⟩ := List.getElem?_eq_some_iff.1 hs
+  obtain ⟨hb, htb⟩ := List.getElem?_eq_some_iff.1 ht
+  have hp := hG.noOverlap
+  rw [List.pairwise_iff_getElem] at hp
+  rcases Nat.lt_or_gt_of_ne hab with h | h
+  · have := hp a b ha hb h; rw [hsa, htb] at this; exact this ho hc
+  · have := hp b a hb ha h; rw [hsa, htb] at this
+    exact (this ho.symm hc.symm).symm
+
+/-- snapshot keys of the events that matter for `openV` and for the crossings -/
+theorem key_Vopen (_hG : Good S) {P0 : Nat → Prop} {st0 : SwState} (hI0 : Inv S P0 st0) {k : Nat} {sk : Seg}
+    (hs : S[k]? = some sk) (hV : sk.ori = .V) (hn : ¬ P0 (2 * k)) : akey st0.evs (2 * k) = sk.lo + 1 / 2 := by
+  obtain ⟨eo, ec, h0, _, _, _, _, _, _, _, _, _, h10⟩ := hI0.ev k sk hs
+  unfold akey; rw [h0]; simp only
+  rw [(h10 hV).1, (h10 hV).2 hn]; rfl
+
+theorem key_Vclose (hG : Good S) {P0 : Nat → Prop} {st0 : SwState} (hI0 : Inv S P0 st0) {k : Nat} {sk : Seg}
+    (hs : S[k]? = some sk) (hV : sk.ori = .V) : akey st0.evs (2 * k + 1) = sk.hi := by
+  obtain ⟨eo, ec, _, h1, _, _, _, h5, h6, _, _, _, _⟩ := hI0.ev k sk hs
+  unfold akey; rw [h1]; simp only
+  rw [h5, h6, (hG.segV hs hV).2.2.2.2.1]; rfl
+
+theorem key_Hsus (_hG : Good S) {P0 : Nat → Prop} {st0 : SwState} (hI0 : Inv S P0 st0) {i : Nat} {si : Seg}
+    (hs : S[i]? = some si) (hH : si.ori = .H) (hp : P0 (2 * i)) : akey st0.evs (2 * i) = si.cc + 1 / 4 := by
+  obtain ⟨eo, ec, h0, _, _, _, _, _, _, _, _, h9, _⟩ := hI0.ev i si hs
+  unfold akey; rw [h0]; simp only
+  rw [(h9 hH).1, (h9 hH).2.1 hp]; rfl
+
+/-- state of the sweep inside a part after the prefix `pre` of the sorted active list -/
+structure J (S : List Seg) (P0 : Nat → Prop) (X : Rat) (part oh0 : List Nat) (cross0 : List Pt)
+    (pre : List Nat) (st : SwState) : Prop where
+  inv : Inv S (fun x => P0 x ∨ (x ∈ pre ∧ x ∈ part)) st
+  ov1 : ∀ k sk, S[k]? = some sk → sk.ori = .V → sk.cc = X → 2 * k ∈ pre → 2 * k + 1 ∉ pre →
+          st.openV = some (2 * k)
+  ov2 : ∀ j, st.openV = some j → ∃ k sk, S[k]? = some sk ∧ sk.ori = .V ∧ sk.cc = X ∧ j = 2 * k ∧
+          2 * k ∈ pre ∧ 2 * k + 1 ∉ pre
+  cr : ∀ p, p ∈ st.cross.map (·.p) ↔ p ∈ cross0 ∨ ∃ (i k : Nat) (si sk : Seg), S[i]? = some si ∧ S[k]? = some sk ∧
+          si.ori = .H ∧ sk.ori = .V ∧ sk.cc = X ∧ 2 * i ∈ pre ∧ 2 * i ∈ oh0 ∧ sk.lo < si.cc ∧ si.cc < sk.hi ∧
+          p = ⟨X, si.cc⟩
+
+/-- an event that is neither end of a vertical: `openV` clauses carry over when `openV` is unchanged -/
+theorem J.ov_transfer {P0 : Nat → Prop} {X : Rat} {part oh0 : List Nat} {cross0 : List Pt} {pre : List Nat}
+    {st st' : SwState} (hJ : J S P0 X part oh0 cross0 pre st) (e : Nat)
+    (hne : ∀ k sk, S[k]? = some sk → sk.ori = .V → e ≠ 2 * k ∧ e ≠ 2 * k + 1) (hov : st'.openV = st.openV) :
+    (∀ k sk, S[k]? = some sk → sk.ori = .V → sk.cc = X → 2 * k ∈ pre ++ [e] → 2 * k + 1 ∉ pre ++ [e] →
+          st'.openV = some (2 * k)) ∧
+    (∀ j, st'.openV = some j → ∃ k sk, S[k]? = some sk ∧ sk.ori = .V ∧ sk.cc = X ∧ j = 2 * k ∧
+          2 * k ∈ pre ++ [e] ∧ 2 * k + 1 ∉ pre ++ [e]) := by
+  constructor
+  · intro k sk hs hV hX h1 h2
+    rw [hov]
+    have := hne k sk hs hV
+    refine hJ.ov1 k sk hs hV hX ?_ ?_
+    · rcases List.mem_append.1 h1 with h | h
+      · exact h
+      · simp at h; exact absurd h.symm this.1
+    · intro h; exact h2 (List.mem_append_left _ h)
+  · intro j hj
+    rw [hov] at hj
+    obtain ⟨k, sk, hs, hV, hX, rfl, h1, h2⟩ := hJ.ov2 j hj
+    have := hne k sk hs hV
+    refine ⟨k, sk, hs, hV, hX, rfl, List.mem_append_left _ h1, ?_⟩
+    intro h
+    rcases List.mem_append.1 h with h | h
+    · exact h2 h
+    · simp at h; exact this.2 h.symm
+
+/-- an event outside `oh0`: the crossing clause carries over when `cross` is unchanged -/
+theorem J.cr_transfer {P0 : Nat → Prop} {X : Rat} {part oh0 : List Nat} {cross0 : List Pt} {pre : List Nat}
+    {st st' : SwState} (hJ : J S P0 X part oh0 cross0 pre st) (e : Nat) (he : e ∉ oh0)
+    (hc : st'.cross = st.cross) :
+    ∀ p, p ∈ st'.cross.map (·.p) ↔ p ∈ cross0 ∨ ∃ (i k : Nat) (si sk : Seg), S[i]? = some si ∧ S[k]? = some sk ∧
+          si.ori = .H ∧ sk.ori = .V ∧ sk.cc = X ∧ 2 * i ∈ pre ++ [e] ∧ 2 * i ∈ oh0 ∧ sk.lo < si.cc ∧
+          si.cc < sk.hi ∧ p = ⟨X, si.cc⟩ := by
+  intro p
+  rw [hc, hJ.cr]
+  constructor
+  · rintro (h | ⟨i, k, si, sk, a, b, c, d, f, g, h, rest⟩)
+    · exact Or.inl h
+    · exact Or.inr ⟨i, k, si, sk, a, b, c, d, f, List.mem_append_left _ g, h, rest⟩
+  · rintro (h | ⟨i, k, si, sk, a, b, c, d, f, g, h, rest⟩)
+    · exact Or.inl h
+    · refine Or.inr ⟨i, k, si, sk, a, b, c, d, f, ?_, h, rest⟩
+      rcases List.mem_append.1 g with g | g
+      · exact g
+      · simp at g; rw [g] at h; exact absurd h he
+
+/-- position of the current event `e` in the sorted active list `pre ++ e :: post` -/
+structure SC (K : Nat → Rat) (pre post : List Nat) (e : Nat) (oh0 part : List Nat) : Prop where
+  mem : ∀ x, (x ∈ pre ∨ x = e ∨ x ∈ post) ↔ (x ∈ oh0 ∨ x ∈ part)
+  npre : e ∉ pre
+  npost : e ∉ post
+  disj : ∀ x, x ∈ pre → x ∉ post
+  k1 : ∀ a ∈ pre, K a ≤ K e
+  k2 : ∀ b ∈ post, K e ≤ K b
+  k3 : ∀ a ∈ pre, ∀ b ∈ post, K a ≤ K b
+
+/-- facts about a vertical segment whose events belong to the current part -/
+theorem Vfacts (hG : Good S) {P0 : Nat → Prop} {X : Rat} {part : List Nat} (hC : PartCtx S P0 X part)
+    {st0 : SwState} (hI0 : Inv S P0 st0) {k : Nat} {sk : Seg} (hs : S[k]? = some sk) (hV : sk.ori = .V)
+    (hX : sk.cc = X) :
+    ¬ P0 (2 * k) ∧ 2 * k ∈ part ∧ 2 * k + 1 ∈ part ∧ akey st0.evs (2 * k) = sk.lo + 1 / 2 ∧
+    akey st0.evs (2 * k + 1) = sk.hi ∧ sk.lo < sk.hi ∧ Apart sk.lo sk.hi := by
+  have sv := hG.segV hs hV
+  have hm := List.mem_of_getElem? hs
+  have hn : ¬ P0 (2 * k) := by
+    rw [(hC.hP0 k sk hs).1, sv.2.1, hX]; exact Rat.lt_irrefl
+  refine ⟨hn, (hC.hpart k sk hs).1.2 (by rw [sv.2.1, hX]), (hC.hpart k sk hs).2.2 (by rw [sv.2.2.1, hX]),
+    key_Vopen hG hI0 hs hV hn, key_Vclose hG hI0 hs hV, sv.2.2.2.2.2, ?_⟩
+  have := hG.sepY sk hm sk hm sk.on.p.y (by simp) sk.cn.p.y (by simp)
+  rw [sv.2.2.2.1, sv.2.2.2.2.1] at this; exact this
+
+theorem apart_V_H (hG : Good S) {i k : Nat} {si sk : Seg} (hsi : S[i]? = some si) (hsk : S[k]? = some sk)
+    (hH : si.ori = .H) (hV : sk.ori = .V) : Apart sk.lo si.cc ∧ Apart sk.hi si.cc := by
+  have sv := hG.segV hsk hV
+  have sh := hG.segH hsi hH
+  have hmi := List.mem_of_getElem? hsi
+  have hmk := List.mem_of_getElem? hsk
+  have a1 := hG.sepY sk hmk si hmi sk.on.p.y (by simp) si.on.p.y (by simp)
+  have a2 := hG.sepY sk hmk si hmi sk.cn.p.y (by simp) si.on.p.y (by simp)
+  rw [sv.2.2.2.1, sh.2.1] at a1
+  rw [sv.2.2.2.2.1, sh.2.1] at a2
+  exact ⟨a1, a2⟩
+
+/-- while `2k` is open (OPEN before, CLOSE after the current position) no other vertical of the part is -/
+theorem only_one_open (hG : Good S) {P0 : Nat → Prop} {X : Rat} {part : List Nat} (hC : PartCtx S P0 X part)
+    {st0 : SwState} (hI0 : Inv S P0 st0) {k k' : Nat} {sk sk' : Seg}
+    (hs : S[k]? = some sk) (hV : sk.ori = .V) (hX : sk.cc = X)
+    (hs' : S[k']? = some sk') (hV' : sk'.ori = .V) (hX' : sk'.cc = X) (hne : k' ≠ k)
+    (h1 : sk'.lo + 1 / 2 ≤ sk.lo + 1 / 2 ∨ sk'.lo + 1 / 2 ≤ sk.hi) (h2 : sk.lo + 1 / 2 ≤ sk'.hi ∨ sk.hi ≤ sk'.hi) :
+    False := by
+  obtain ⟨_, _, _, _, _, hlt, _⟩ := Vfacts hG hC hI0 hs hV hX
+  obtain ⟨_, _, _, _, _, hlt', _⟩ := Vfacts hG hC hI0 hs' hV' hX'
+  have := hG.noOverlap_get hs hs' (Ne.symm hne) (by rw [hV, hV']) (by rw [hX, hX'])
+  grind
+
+section steps
+variable {P0 : Nat → Prop} {X : Rat} {part : List Nat} {st0 : SwState} {cross0 : List Pt}
+  {pre post : List Nat}
+
+theorem not_openH_of_V {P0 : Nat → Prop} {st0 : SwState} (hI0 : Inv S P0 st0) {k : Nat} {sk : Seg}
+    (hs : S[k]? = some sk) (hV : sk.ori = .V) : 2 * k ∉ st0.openH ∧ 2 * k + 1 ∉ st0.openH := by
+  constructor
+  · intro h
+    obtain ⟨i, s, hs', he, hH, _⟩ := (hI0.oh _).1 h
+    have : i = k := by omega
+    subst this; rw [hs] at hs'; cases hs'; rw [hV] at hH; cases hH
+  · intro h
+    obtain ⟨i, s, _, he, _⟩ := (hI0.oh _).1 h
+    omega
+
+theorem J_openV (hG : Good S) (hC : PartCtx S P0 X part) (hI0 : Inv S P0 st0) {k : Nat} {sk : Seg}
+    (hsc : SC (akey st0.evs) pre post (2 * k) st0.openH part) (hs : S[k]? = some sk) (hV : sk.ori = .V)
+    (hin : 2 * k ∈ part) (hJ : J S P0 X part st0.openH cross0 pre st) :
+    J S P0 X part st0.openH cross0 (pre ++ [2 * k]) (processEvent st (2 * k)) := by
+  have sv := hG.segV hs hV
+  have hX : sk.cc = X := by rw [← sv.2.1]; exact (hC.hpart k sk hs).1.1 hin
+  obtain ⟨_, _, hc1, hk0, hk1, hlt, hap⟩ := Vfacts hG hC hI0 hs hV hX
+  rw [pe_openV hJ.inv hs hV]
+  refine ⟨?_, ?_, ?_, ?_⟩
+  · refine (inv_openV hJ.inv hs hV).congr ?_
+    intro x; simp only [List.mem_append, List.mem_singleton]
+    constructor
+    · rintro ((h | ⟨h1, h2⟩) | rfl)
+      · exact Or.inl h
+      · exact Or.inr ⟨Or.inl h1, h2⟩
+      · exact Or.inr ⟨Or.inr rfl, hin⟩
+    · rintro (h | ⟨h1 | rfl, h2⟩)
+      · exact Or.inl (Or.inl h)
+      · exact Or.inl (Or.inr ⟨h1, h2⟩)
+      · exact Or.inr rfl
+  · intro k' sk' hs' hV' hX' h1 h2
+    simp only
+    by_cases hkk : k' = k
+    · rw [hkk]
+    · exfalso
+      obtain ⟨_, _, hc1', hk0', hk1', _, _⟩ := Vfacts hG hC hI0 hs' hV' hX'
+      have h1' : 2 * k' ∈ pre := by
+        rcases List.mem_append.1 h1 with h | h
+        · exact h
+        · simp at h; omega
+      have h2' : 2 * k' + 1 ∈ post := by
+        rcases (hsc.mem (2 * k' + 1)).2 (Or.inr hc1') with h | h | h
+        · exact absurd (List.mem_append_left _ h) h2
+        · omega
+        · exact h
+      have a := hsc.k1 _ h1'; have b := hsc.k2 _ h2'
+      rw [hk0', hk0] at a; rw [hk0, hk1'] at b
+      exact only_one_open hG hC hI0 hs hV hX hs' hV' hX' hkk (Or.inl a) (Or.inl b)
+  · intro j hj
+    simp only at hj
+    refine ⟨k, sk, hs, hV, hX, (Option.some.inj hj).symm, by simp, ?_⟩
+    intro h
+    rcases List.mem_append.1 h with h | h
+    · have a := hsc.k1 _ h; rw [hk1, hk0] at a
+      unfold Apart at hap; grind
+    · simp at h
+  · exact hJ.cr_transfer (st' := { st with openV := some (2 * k) }) (2 * k) (not_openH_of_V hI0 hs hV).1 rfl
+
+theorem J_closeV (hG : Good S) (hC : PartCtx S P0 X part) (hI0 : Inv S P0 st0) {k : Nat} {sk : Seg}
+    (hsc : SC (akey st0.evs) pre post (2 * k + 1) st0.openH part) (hs : S[k]? = some sk) (hV : sk.ori = .V)
+    (hin : 2 * k + 1 ∈ part) (hJ : J S P0 X part st0.openH cross0 pre st) :
+    J S P0 X part st0.openH cross0 (pre ++ [2 * k + 1]) (processEvent st (2 * k + 1)) := by
+  have sv := hG.segV hs hV
+  have hX : sk.cc = X := by rw [← sv.2.2.1]; exact (hC.hpart k sk hs).2.1 hin
+  obtain ⟨_, _, hc1, hk0, hk1, hlt, hap⟩ := Vfacts hG hC hI0 hs hV hX
+  rw [pe_close hJ.inv hs, if_neg (by rw [hV]; simp)]
+  refine ⟨?_, ?_, ?_, ?_⟩
+  · refine (inv_closeV hJ.inv hs hV).congr ?_
+    intro x; simp only [List.mem_append, List.mem_singleton]
+    constructor
+    · rintro ((h | ⟨h1, h2⟩) | rfl)
+      · exact Or.inl h
+      · exact Or.inr ⟨Or.inl h1, h2⟩
+      · exact Or.inr ⟨Or.inr rfl, hin⟩
+    · rintro (h | ⟨h1 | rfl, h2⟩)
+      · exact Or.inl (Or.inl h)
+      · exact Or.inl (Or.inr ⟨h1, h2⟩)
+      · exact Or.inr rfl
+  · intro k' sk' hs' hV' hX' h1 h2
+    exfalso
+    by_cases hkk : k' = k
+    · subst hkk; exact h2 (by simp)
+    · obtain ⟨_, _, hc1', hk0', hk1', _, _⟩ := Vfacts hG hC hI0 hs' hV' hX'
+      have h1' : 2 * k' ∈ pre := by
+        rcases List.mem_append.1 h1 with h | h
+        · exact h
+        · simp at h; omega
+      have h2' : 2 * k' + 1 ∈ post := by
+        rcases (hsc.mem (2 * k' + 1)).2 (Or.inr hc1') with h | h | h
+        · exact absurd (List.mem_append_left _ h) h2
+        · omega
+        · exact h
+      have a := hsc.k1 _ h1'; have b := hsc.k2 _ h2'
+      rw [hk0', hk1] at a; rw [hk1, hk1'] at b
+      exact only_one_open hG hC hI0 hs hV hX hs' hV' hX' hkk (Or.inr a) (Or.inr b)
+  · intro j hj; simp at hj
+  · exact hJ.cr_transfer (st' := { st with openV := none }) (2 * k + 1) (not_openH_of_V hI0 hs hV).2 rfl
+
+theorem H_not_V {i k : Nat} {si sk : Seg} (hsi : S[i]? = some si) (hH : si.ori = .H)
+    (hsk : S[k]? = some sk) (hV : sk.ori = .V) : i ≠ k := by
+  rintro rfl; rw [hsi] at hsk; cases hsk; rw [hH] at hV; cases hV
+
+theorem J_openH (hG : Good S) (hC : PartCtx S P0 X part) (hI0 : Inv S P0 st0) {i : Nat} {si : Seg}
+    (hsc : SC (akey st0.evs) pre post (2 * i) st0.openH part) (hs : S[i]? = some si) (hH : si.ori = .H)
+    (hin : 2 * i ∈ part) (hJ : J S P0 X part st0.openH cross0 pre st) :
+    J S P0 X part st0.openH cross0 (pre ++ [2 * i]) (processEvent st (2 * i)) := by
+  have sh := hG.segH hs hH
+  have hX : si.on.p.x = X := (hC.hpart i si hs).1.1 hin
+  have hnP0 : ¬ P0 (2 * i) := by rw [(hC.hP0 i si hs).1, hX]; exact Rat.lt_irrefl
+  have hnP : ¬ (P0 (2 * i) ∨ (2 * i ∈ pre ∧ 2 * i ∈ part)) := by
+    rintro (h | h)
+    · exact hnP0 h
+    · exact hsc.npre h.1
+  have hcn : X < si.cn.p.x := by rw [sh.2.2.2.2.1, ← hX, sh.2.2.2.1]; exact sh.2.2.2.2.2
+  have hnP1 : ¬ (P0 (2 * i + 1) ∨ (2 * i + 1 ∈ pre ∧ 2 * i + 1 ∈ part)) := by
+    rintro (h | h)
+    · rw [(hC.hP0 i si hs).2] at h; grind
+    · have := (hC.hpart i si hs).2.1 h.2; grind
+  obtain ⟨eo, heo, hpe⟩ := pe_openH hJ.inv hs hH hnP
+  rw [hpe]
+  have hne : ∀ k sk, S[k]? = some sk → sk.ori = .V → 2 * i ≠ 2 * k ∧ 2 * i ≠ 2 * k + 1 := by
+    intro k sk hsk hV; have := H_not_V hs hH hsk hV; omega
+  obtain ⟨o1, o2⟩ := hJ.ov_transfer
+    (st' := { st with evs := st.evs.set (2 * i) { eo with ty := .sustain }, openH := insertAsc (2 * i) st.openH })
+    (2 * i) hne rfl
+  refine ⟨?_, o1, o2, ?_⟩
+  · refine (inv_openH hJ.inv hs hH hnP hnP1 heo).congr ?_
+    intro x; simp only [List.mem_append, List.mem_singleton]
+    constructor
+    · rintro ((h | ⟨h1, h2⟩) | rfl)
+      · exact Or.inl h
+      · exact Or.inr ⟨Or.inl h1, h2⟩
+      · exact Or.inr ⟨Or.inr rfl, hin⟩
+    · rintro (h | ⟨h1 | rfl, h2⟩)
+      · exact Or.inl (Or.inl h)
+      · exact Or.inl (Or.inr ⟨h1, h2⟩)
+      · exact Or.inr rfl
+  · refine hJ.cr_transfer (2 * i) ?_ rfl
+    intro h
+    obtain ⟨j, t, ht, he, _, hp, _⟩ := (hI0.oh _).1 h
+    have : j = i := by omega
+    subst this; exact hnP0 hp
+
+theorem J_closeH (_hG : Good S) (_hC : PartCtx S P0 X part) (hI0 : Inv S P0 st0) {i : Nat} {si : Seg}
+    (_hsc : SC (akey st0.evs) pre post (2 * i + 1) st0.openH part) (hs : S[i]? = some si) (hH : si.ori = .H)
+    (hin : 2 * i + 1 ∈ part) (hJ : J S P0 X part st0.openH cross0 pre st) :
+    J S P0 X part st0.openH cross0 (pre ++ [2 * i + 1]) (processEvent st (2 * i + 1)) := by
+  rw [pe_close hJ.inv hs, if_pos hH]
+  have hne : ∀ k sk, S[k]? = some sk → sk.ori = .V → 2 * i + 1 ≠ 2 * k ∧ 2 * i + 1 ≠ 2 * k + 1 := by
+    intro k sk hsk hV; have := H_not_V hs hH hsk hV; omega
+  obtain ⟨o1, o2⟩ := hJ.ov_transfer (st' := { st with openH := st.openH.erase (2 * i) }) (2 * i + 1) hne rfl
+  refine ⟨?_, o1, o2, ?_⟩
+  · refine (inv_closeH hJ.inv hs hH).congr ?_
+    intro x; simp only [List.mem_append, List.mem_singleton]
+    constructor
+    · rintro ((h | ⟨h1, h2⟩) | rfl)
+      · exact Or.inl h
+      · exact Or.inr ⟨Or.inl h1, h2⟩
+      · exact Or.inr ⟨Or.inr rfl, hin⟩
+    · rintro (h | ⟨h1 | rfl, h2⟩)
+      · exact Or.inl (Or.inl h)
+      · exact Or.inl (Or.inr ⟨h1, h2⟩)
+      · exact Or.inr rfl
+  · refine hJ.cr_transfer (2 * i + 1) ?_ rfl
+    intro h
+    obtain ⟨j, t, _, he, _⟩ := (hI0.oh _).1 h
+    omega
+
+theorem J_sus (hG : Good S) (hC : PartCtx S P0 X part) (hI0 : Inv S P0 st0) {i : Nat} {si : Seg}
+    (hsc : SC (akey st0.evs) pre post (2 * i) st0.openH part) (hs : S[i]? = some si) (hH : si.ori = .H)
+    (hoh : 2 * i ∈ st0.openH) (hp0 : P0 (2 * i)) (hJ : J S P0 X part st0.openH cross0 pre st) :
+    J S P0 X part st0.openH cross0 (pre ++ [2 * i]) (processEvent st (2 * i)) := by
+  have hnpart : 2 * i ∉ part := by
+    intro h
+    have h1 := (hC.hpart i si hs).1.1 h
+    have h2 := (hC.hP0 i si hs).1.1 hp0
+    rw [h1] at h2; exact Rat.lt_irrefl h2
+  have hcongr : ∀ x, (P0 x ∨ (x ∈ pre ∧ x ∈ part)) ↔ (P0 x ∨ (x ∈ pre ++ [2 * i] ∧ x ∈ part)) := by
+    intro x; simp only [List.mem_append, List.mem_singleton]
+    constructor
+    · rintro (h | ⟨h1, h2⟩)
+      · exact Or.inl h
+      · exact Or.inr ⟨Or.inl h1, h2⟩
+    · rintro (h | ⟨h1 | rfl, h2⟩)
+      · exact Or.inl h
+      · exact Or.inr ⟨h1, h2⟩
+      · exact absurd h2 hnpart
+  have hKi : akey st0.evs (2 * i) = si.cc + 1 / 4 := key_Hsus hG hI0 hs hH hp0
+  have hne : ∀ k sk, S[k]? = some sk → sk.ori = .V → 2 * i ≠ 2 * k ∧ 2 * i ≠ 2 * k + 1 := by
+    intro k sk hsk hV; have := H_not_V hs hH hsk hV; omega
+  obtain ⟨ev, hev, hpe⟩ := pe_sustain hJ.inv hs hH (Or.inl hp0)
+  rw [hpe]
+  cases hov : st.openV with
+  | none =>
+    simp only
+    obtain ⟨o1, o2⟩ := hJ.ov_transfer (st' := st) (2 * i) hne rfl
+    refine ⟨hJ.inv.congr hcongr, o1, o2, ?_⟩
+    intro p
+    rw [hJ.cr]
+    constructor
+    · rintro (h | ⟨i', k', si', sk', a, b, c, d, f, g, h, rest⟩)
+      · exact Or.inl h
+      · exact Or.inr ⟨i', k', si', sk', a, b, c, d, f, List.mem_append_left _ g, h, rest⟩
+    · rintro (h | ⟨i', k', si', sk', a, b, c, d, f, g, h, l1, l2, rest⟩)
+      · exact Or.inl h
+      · rcases List.mem_append.1 g with g | g
+        · exact Or.inr ⟨i', k', si', sk', a, b, c, d, f, g, h, l1, l2, rest⟩
+        · exfalso
+          simp at g
+          have : i' = i := by omega
+          subst this; rw [hs] at a; cases a
+          obtain ⟨_, hc0, hc1, hk0, hk1, _, _⟩ := Vfacts hG hC hI0 b d f
+          obtain ⟨ap1, ap2⟩ := apart_V_H hG hs b hH d
+          unfold Apart at ap1 ap2
+          rcases (hsc.mem (2 * k')).2 (Or.inr hc0) with q | q | q
+          · rcases (hsc.mem (2 * k' + 1)).2 (Or.inr hc1) with r | r | r
+            · have := hsc.k1 _ r; rw [hk1, hKi] at this; grind
+            · exact (hne k' sk' b d).2 r.symm
+            · have := hJ.ov1 k' sk' b d f q (fun hr => hsc.disj _ hr r)
+              rw [hov] at this; cases this
+          · exact (hne k' sk' b d).1 q.symm
+          · have := hsc.k2 _ q; rw [hKi, hk0] at this; grind
+  | some j =>
+    obtain ⟨k, sk, hsk, hVk, hXk, rfl, hk_pre, hk1_npre⟩ := hJ.ov2 j hov
+    obtain ⟨_, hc0, hc1, hk0, hk1, _, _⟩ := Vfacts hG hC hI0 hsk hVk hXk
+    obtain ⟨ap1, ap2⟩ := apart_V_H hG hs hsk hH hVk
+    have hpost : 2 * k + 1 ∈ post := by
+      rcases (hsc.mem (2 * k + 1)).2 (Or.inr hc1) with r | r | r
+      · exact absurd r hk1_npre
+      · exact absurd r.symm (hne k sk hsk hVk).2
+      · exact r
+    have hlo : sk.lo < si.cc := by
+      have := hsc.k1 _ hk_pre; rw [hk0, hKi] at this; unfold Apart at ap1; grind
+    have hhi : si.cc < sk.hi := by
+      have := hsc.k2 _ hpost; rw [hKi, hk1] at this; unfold Apart at ap2; grind
+    obtain ⟨ov, _, hovv, _⟩ := hJ.inv.ev k sk hsk
+    simp only [hovv]
+    obtain ⟨hInv, hcross, hopenV, _⟩ := inv_cross hG hJ.inv hs hH hsk hVk (Or.inr ⟨hk_pre, hc0⟩) hev hovv
+      (by intro h; rw [h] at hhi; exact Rat.lt_irrefl hhi)
+    obtain ⟨o1, o2⟩ := hJ.ov_transfer (st' := crossAt st (2 * i) (2 * k) ev ov) (2 * i) hne hopenV
+    refine ⟨hInv.congr hcongr, o1, o2, ?_⟩
+    intro p
+    rw [hcross, List.map_cons, List.mem_cons, hJ.cr]
+    simp only
+    constructor
+    · rintro (h | h | ⟨i', k', si', sk', a, b, c, d, f, g, h, rest⟩)
+      · exact Or.inr ⟨i, k, si, sk, hs, hsk, hH, hVk, hXk, by simp, hoh, hlo, hhi, by rw [h, hXk]⟩
+      · exact Or.inl h
+      · exact Or.inr ⟨i', k', si', sk', a, b, c, d, f, List.mem_append_left _ g, h, rest⟩
+    · rintro (h | ⟨i', k', si', sk', a, b, c, d, f, g, h, l1, l2, rest⟩)
+      · exact Or.inr (Or.inl h)
+      · rcases List.mem_append.1 g with g | g
+        · exact Or.inr (Or.inr ⟨i', k', si', sk', a, b, c, d, f, g, h, l1, l2, rest⟩)
+        · simp at g
+          have : i' = i := by omega
+          subst this; rw [hs] at a; cases a
+          exact Or.inl (by rw [rest, hXk])
+
+end steps
+
 
 end AdaptaVerif.Lemmas.Planarise
